@@ -27,6 +27,7 @@ fn table(id: &str) -> Option<(RunFn, CheckFn)> {
         "C04" => Some((props::c04::run, props::c04::check_case)),
         "C05" => Some((props::c05::run, props::c05::check_case)),
         "C06" => Some((props::c06::run, props::c06::check_case)),
+        "C07" => Some((props::c07::run, props::c07::check_case)),
         "C08" => Some((props::c08::run, props::c08::check_case)),
         "C15" => Some((props::c15::run, props::c15::check_case)),
         "C17" => Some((props::c17::run, props::c17::check_case)),
